@@ -150,7 +150,7 @@ def _selftest_subprocess(mod, verif_seed, tier, idxs, hashseed):
     envv = dict(os.environ)
     envv['PYTHONHASHSEED'] = str(hashseed)
     envv['VERIF_SEED'] = str(verif_seed)
-    cmd = [sys.executable, os.path.join(VERIF, 'check'), mod.PROP, '--tier', tier,
+    cmd = [sys.executable, os.path.join(VERIF, 'simkit_main.py'), mod.PROP, '--tier', tier,
            '--digests', ','.join(map(str, idxs))]
     p = subprocess.run(cmd, env=envv, capture_output=True, text=True, timeout=1200)
     if p.returncode != 0:
